@@ -27,7 +27,7 @@ func init() {
 		}
 		bad := ""
 		var mu sync.Mutex
-		ok := within(concWatchdog*2, func() {
+		ok := withinProgress(concWatchdog*2, func(tick func()) {
 			var wg sync.WaitGroup
 			start := make(chan struct{})
 			for _, p := range progs {
@@ -36,6 +36,7 @@ func init() {
 					defer wg.Done()
 					<-start
 					for i := 0; i < iters; i++ {
+						tick()
 						if _, err := w.eval(ctx, p); err != nil {
 							mu.Lock()
 							bad = renderErr(err)
@@ -82,7 +83,7 @@ func init() {
 func repeatFuture(iters int, src, want, why string) string {
 	var mu sync.Mutex
 	badN, total, sample := 0, 0, ""
-	ok := within(concWatchdog*4, func() {
+	ok := withinProgress(concWatchdog*2, func(tick func()) {
 		var wg sync.WaitGroup
 		for g := 0; g < concPar(); g++ {
 			wg.Add(1)
@@ -93,6 +94,7 @@ func repeatFuture(iters int, src, want, why string) string {
 					return
 				}
 				for i := 0; i < iters/concPar()+1; i++ {
+					tick()
 					o := w.evalObs(context.Background(), src)
 					mu.Lock()
 					total++
